@@ -88,6 +88,8 @@ type World struct {
 	CmdExitFree bool  // vcmd exit status symbolic (default true)
 	CmdWriteFree bool // vcmd write outcomes symbolic (default true)
 	Tmpfiles int
+	KillAtDesc string // kill before the first crash point whose description contains this
+	PreemptAtFS bool // every crash point is also a scheduling point
 	CmdHook func(m *Machine, inv *Invocation) // optional
 }
 
@@ -139,8 +141,18 @@ func (w *World) event(m *Machine, op string, args ...Value) {
 // crashPoint: the process may be killed immediately before the next effect.
 func (m *Machine) crashPoint(what string) {
 	w := m.Env
+	if w.PreemptAtFS {
+		m.maybePreempt() // file-system effects of concurrently running tasks may interleave
+	}
 	n := w.Ops
 	w.Ops++
+	if w.KillAtDesc != "" && strings.Contains(what, w.KillAtDesc) {
+		w.KillAtDesc = ""
+		w.event(m, "KILL", what)
+		g := m.cur
+		m.endRun(g, "killed", 137, fmt.Sprintf("killed before op %d (%s)", n, what))
+		panic(gDie{})
+	}
 	if w.KillAt == nil {
 		return
 	}
